@@ -463,6 +463,8 @@ def reshape(it, base, e, env, argv):
     # (C*D, r) -> F
     src_txt = src(e)
     out = tuple(kinds) if kinds else None
+    if out == ("1", "D") and base.sh == ("D",):
+        out = ("N", "D")  # a single feature vector reshaped to one row: a batch of one sample
     return base.copy(sh=out, cval=None)
 
 
@@ -835,6 +837,8 @@ def numpy_call(it, fn, d, e, env, argv, kw, args):
             if 0 <= j < n_:
                 sh = list(a0.sh)
                 sh.insert(j, "1")
+                if tuple(sh) == ("1", "D"):
+                    sh[0] = "N"  # a single feature vector given a leading axis: a batch of one sample
                 return a0.copy(sh=tuple(sh), cval=None)
     if fn in ("expand_dims", "broadcast_to", "reshape", "squeeze"):
         return a0.copy(sh=None, cval=None) if a0 is not None and a0.is_numlike else unk()
